@@ -21,9 +21,10 @@ import (
 )
 
 type job struct {
-	kind string
-	dir  string
-	key  intoto.Key
+	kind   string
+	dir    string
+	key    intoto.Key
+	layout *intoto.Metablock
 }
 
 func mkKey() intoto.Key {
@@ -48,6 +49,37 @@ func setupTree(dir string, i int, symlinks bool) {
 		os.Symlink(tgt, filepath.Join(dir, "sub", "dirlink"))
 		os.Symlink(tgt, filepath.Join(dir, "sub", "deep", "dirlink2"))
 	}
+}
+
+// setupVerify writes a small signed supply chain (two steps, MATCH / ALLOW / DISALLOW rules with the
+// SAME rule texts in every job, distinct keys, digests and directories) below dir/chain and returns
+// the in-memory layout.
+func setupVerify(dir string, i int, key intoto.Key) *intoto.Metablock {
+	cd := filepath.Join(dir, "chain")
+	os.MkdirAll(cd, 0o755)
+	pub := key
+	pub.KeyVal.Private = ""
+	h := func(s string) intoto.HashObj { return intoto.HashObj{"sha256": fmt.Sprintf("%064x", len(s)*7919+i)} }
+	mk := func(name string, mats, prods map[string]intoto.HashObj) {
+		mb := &intoto.Metablock{Signed: intoto.Link{Type: "link", Name: name, Materials: mats, Products: prods, ByProducts: map[string]interface{}{}, Command: []string{}, Environment: map[string]interface{}{}}, Signatures: []intoto.Signature{}}
+		mb.Sign(key)
+		mb.Dump(filepath.Join(cd, fmt.Sprintf("%s.%.8s.link", name, key.KeyID)))
+	}
+	a := map[string]intoto.HashObj{"src/a.c": h("a"), "src/b.c": h("bb"), "README": h("r")}
+	b := map[string]intoto.HashObj{"src/a.c": h("a"), "src/b.c": h("bb"), "README": h("r"), "out/app": h("app")}
+	mk("fetch", map[string]intoto.HashObj{}, a)
+	mk("build", a, b)
+	lay := intoto.Layout{Type: "layout", Expires: "2999-01-01T00:00:00Z", Keys: map[string]intoto.Key{key.KeyID: pub},
+		Steps: []intoto.Step{
+			{Type: "step", PubKeys: []string{key.KeyID}, Threshold: 1, SupplyChainItem: intoto.SupplyChainItem{Name: "fetch",
+				ExpectedMaterials: [][]string{{"DISALLOW", "*"}}, ExpectedProducts: [][]string{{"CREATE", "src/*"}, {"ALLOW", "README"}, {"DISALLOW", "*"}}}},
+			{Type: "step", PubKeys: []string{key.KeyID}, Threshold: 1, SupplyChainItem: intoto.SupplyChainItem{Name: "build",
+				ExpectedMaterials: [][]string{{"MATCH", "*", "IN", "src", "WITH", "PRODUCTS", "IN", "src", "FROM", "fetch"}, {"MATCH", "*", "WITH", "PRODUCTS", "FROM", "fetch"}, {"DISALLOW", "*"}},
+				ExpectedProducts:  [][]string{{"CREATE", "out/app"}, {"MATCH", "src/*", "WITH", "MATERIALS", "FROM", "build"}, {"ALLOW", "*"}}}},
+		}, Inspect: []intoto.Inspection{}}
+	mb := &intoto.Metablock{Signed: lay, Signatures: []intoto.Signature{}}
+	mb.Sign(key)
+	return mb
 }
 
 func canonArts(m map[string]intoto.HashObj) string {
@@ -93,6 +125,24 @@ func do(j job, yield bool) string {
 		}
 		b, _ := md.(*intoto.Metablock).GetSignableRepresentation()
 		return string(b) + fmt.Sprint(md.VerifySignature(j.key) == nil)
+	case "verify":
+		// full verification of the job's own chain, several times (own layout object, own key map, own directory)
+		pub := j.key
+		pub.KeyVal.Private = ""
+		res := ""
+		for it := 0; it < 12; it++ {
+			sum, err := intoto.InTotoVerify(j.layout, map[string]intoto.Key{pub.KeyID: pub}, filepath.Join(j.dir, "chain"), "", nil, nil, false)
+			if err != nil {
+				res += "err:" + err.Error() + ";"
+				continue
+			}
+			l := sum.GetPayload().(intoto.Link)
+			res += canonArts(l.Products) + ";"
+			if yield {
+				runtime.Gosched()
+			}
+		}
+		return res
 	case "dsse":
 		env := &intoto.Envelope{}
 		if err := env.SetPayload(intoto.Link{Type: "link", Name: j.dir}); err != nil {
@@ -112,18 +162,23 @@ func main() {
 	rounds := flag.Int("rounds", 3, "rounds")
 	symlinks := flag.Bool("symlinks", true, "trees with symlinks")
 	yield := flag.Bool("yield", false, "inject yields")
+	show := flag.Bool("show", false, "print the sequential results (debugging)")
 	flag.Parse()
 	if *procs > 0 {
 		runtime.GOMAXPROCS(*procs)
 	}
 	base, _ := os.MkdirTemp("", "verif-race-")
 	defer os.RemoveAll(base)
-	kinds := []string{"record", "record", "run", "signload", "dsse", "record"}
+	kinds := []string{"record", "verify", "run", "signload", "verify", "dsse", "record", "verify"}
 	var jobs []job
 	for i := 0; i < *n; i++ {
 		d := filepath.Join(base, fmt.Sprintf("w%d", i))
 		setupTree(d, i, *symlinks)
-		jobs = append(jobs, job{kind: kinds[i%len(kinds)], dir: d, key: mkKey()})
+		jb := job{kind: kinds[i%len(kinds)], dir: d, key: mkKey()}
+		if jb.kind == "verify" {
+			jb.layout = setupVerify(d, i, jb.key)
+		}
+		jobs = append(jobs, jb)
 	}
 	mismatch := 0
 	for r := 0; r < *rounds; r++ {
@@ -133,6 +188,9 @@ func main() {
 			os.Remove(filepath.Join(j.dir, "out.txt"))
 			os.Remove(filepath.Join(j.dir, "x.link"))
 			seq[i] = do(j, false)
+			if *show && r == 0 {
+				fmt.Fprintf(os.Stderr, "job %d %s: %.300s\n", i, j.kind, seq[i])
+			}
 		}
 		for _, j := range jobs {
 			os.Remove(filepath.Join(j.dir, "out.txt"))
